@@ -37,6 +37,9 @@ const (
 	siteCliRecv  = "(*eventloop).readUDP/recvfrom"
 	siteCliSend  = "(*conn).sendTo/send"
 	siteCliHello = "(*conn).open/send"
+	// in the default build the sockets of a client are served by (*conn).processIO, which reads
+	// with read(2) through (*eventloop).read: a failure there ends the socket like a stream's
+	siteCliRead = "(*eventloop).read/read"
 )
 
 type ucState struct {
@@ -236,7 +239,9 @@ func runUDPClientFault(cs ucCase) (fails []string, infra string, delivered int) 
 	}
 	vst := sts[cs.Victim]
 	for _, f := range cs.Faults {
-		if f.Site != siteCliHello {
+		// a victim whose OnOpen reply fails is gone, and its descriptor number may already belong
+		// to a socket dialled after it: further faults are armed only on a victim that lives
+		if f.Site != siteCliHello && !helloFault {
 			install(f, int(atomic.LoadInt32(&vst.fd)))
 		}
 	}
@@ -295,6 +300,14 @@ func runUDPClientFault(cs ucCase) (fails []string, infra string, delivered int) 
 		_, ok := h.failedSend[k]
 		return ok
 	}
+	readFatal := func() (unix.Errno, bool) {
+		for k, f := range installed {
+			if specOf[k].Site == siteCliRead && specOf[k].Errno != unix.EAGAIN && atomic.LoadInt32(&f.Delivered) == 1 {
+				return specOf[k].Errno, true
+			}
+		}
+		return 0, false
+	}
 	// stop-and-wait rounds over all live sockets; one extra round after every fault has struck
 	for seq := 0; seq <= cs.Rounds && len(fails) == 0; seq++ {
 		for _, st := range sts {
@@ -322,6 +335,15 @@ func runUDPClientFault(cs ucCase) (fails []string, infra string, delivered int) 
 				}
 				if failedSend([2]int{st.id, seq}) {
 					break
+				}
+				if st == vst && atomic.LoadInt32(&vst.closes) > 0 {
+					if errno, ok := readFatal(); ok {
+						victimDead = true
+						if vst.closeErr == nil {
+							add("VERIF-KEY:fault-close-err the victim was closed because read failed with %v, but OnClose reported a nil error", errno)
+						}
+						break
+					}
 				}
 				if time.Now().After(dl) {
 					h.mu.Lock()
@@ -408,6 +430,10 @@ func TestC18UDPClient(t *testing.T) {
 				f.Site = siteCliRecv
 				f.Errno = rapid.SampledFrom([]unix.Errno{unix.EAGAIN, unix.EINTR, unix.ECONNREFUSED, unix.ENOMEM, unix.ENOBUFS, unix.EIO}).Draw(t, "errno")
 				f.K = rapid.IntRange(1, 8).Draw(t, "k")
+				if rapid.IntRange(0, 2).Draw(t, "readSite") == 0 {
+					f.Site = siteCliRead // default build
+					f.Errno = rapid.SampledFrom([]unix.Errno{unix.EAGAIN, unix.ECONNREFUSED, unix.EIO, unix.ENOMEM}).Draw(t, "readErrno")
+				}
 			case 2, 3:
 				f.Site = siteCliSend
 				f.Errno = rapid.SampledFrom([]unix.Errno{unix.EAGAIN, unix.EPERM, unix.ENOBUFS, unix.ECONNREFUSED, unix.EMSGSIZE, unix.ENETUNREACH, unix.EINTR}).Draw(t, "errno")
